@@ -22,6 +22,7 @@ type reqSpec struct {
 	Cuts  []int  `json:"cuts"`  // fragment boundaries in the ICMP message (multiples of 8), v4 only
 	Order []int  `json:"order"` // delivery order of fragments
 	Split int    `json:"split"` // >0: deliver the packet as two views split at this byte
+	Pad   int    `json:"pad"`   // >0: trailing link-layer padding after the IP packet (frame longer than the IP length)
 	Dup   bool   `json:"dup"`   // duplicate one fragment
 }
 
@@ -201,6 +202,7 @@ func runScenario(si int, sc scenario, tr *vh.Trace, shortWait *bool) {
 				msg := wire.BuildICMPv4Echo(8, uint16(r.Ident), uint16(r.Seq), payload)
 				if len(r.Cuts) == 0 {
 					pkt := wire.BuildIPv4(src, dst, 1, msg, wire.IPv4Opts{ID: uint16(id)})
+					pkt = append(pkt, wire.Pattern(r.Seq+3, r.Pad)...)
 					if r.Split > 0 && r.Split < len(pkt) {
 						link.InjectViews(wire.ProtoIPv4, [][]byte{pkt[:r.Split], pkt[r.Split:]}, "")
 					} else {
@@ -222,7 +224,7 @@ func runScenario(si int, sc scenario, tr *vh.Trace, shortWait *bool) {
 						}
 					}
 					for n, i := range order {
-						link.Inject(wire.ProtoIPv4, frags[i], "")
+						link.Inject(wire.ProtoIPv4, append(append([]byte{}, frags[i]...), wire.Pattern(r.Seq+i, r.Pad)...), "")
 						if r.Dup && n == 0 {
 							link.Inject(wire.ProtoIPv4, frags[i], "")
 						}
@@ -243,6 +245,7 @@ func runScenario(si int, sc scenario, tr *vh.Trace, shortWait *bool) {
 				rest[0], rest[1], rest[2], rest[3] = byte(r.Ident>>8), byte(r.Ident), byte(r.Seq>>8), byte(r.Seq)
 				msg := wire.BuildICMPv6(src, dst, 128, 0, rest, payload)
 				pkt := wire.BuildIPv6(src, dst, 58, msg, 64)
+				pkt = append(pkt, wire.Pattern(r.Seq+5, r.Pad)...)
 				if r.Split > 0 && r.Split < len(pkt) {
 					link.InjectViews(wire.ProtoIPv6, [][]byte{pkt[:r.Split], pkt[r.Split:]}, "")
 				} else {
